@@ -144,16 +144,21 @@ def name_variants(program):
     return [(lab, rename(program, m)) for lab, m in out]
 
 
-def summary(program, solver_kw=None):
-    """Admitted set (as a sorted list of leaf keys), verdict of solve(), optimum."""
+def summary(program, solver_kw=None, between=None):
+    """Admitted set (as a sorted list of leaf keys), verdict of solve(), optimum.
+    `between` runs after the problem is built and before its solver is created (another problem may be declared there)."""
     import processscheduler as ps
 
     built = dsl.build(program)
+    if between:
+        between()
     solver = analysis.make_solver(built, solver_kw)
     prims = ex.primaries(built)
     st = ex.Stats()
     A = sorted(repr(ex.leaf_key(l)) for l in ex.explore(solver._solver, prims, st))
     b2 = dsl.build(program)
+    if between:
+        between()
     kw = dict(solver_kw or {})
     kw.setdefault("max_time", 30)
     with boot.quiet(capture=True) as buf:
@@ -329,15 +334,20 @@ def history_job(j):
     res = {"ok": True, "family": j["family"], "viol": [], "histories": 0, "checks": 0}
     try:
         acts = dict(activities())
-        for a in j["sequence"]:
+        between = None
+        seq = list(j["sequence"])
+        if seq and seq[-1].startswith("between:"):
+            # the last activity happens AFTER the target problem is declared and BEFORE its solver exists
+            between = acts[seq.pop()[len("between:"):]]
+        for a in seq:
             acts[a]()
         with boot.no_fd2():
-            s = summary(j["program"], j["solver"])
+            s = summary(j["program"], j["solver"], between=between)
         res["checks"] = s["checks"]
         res["histories"] = 1
         d_ = diff(j["fresh"], s)
         if d_:
-            sig = {"dir": "history", "what": d_[0], "after": j["sequence"][-1] if j["sequence"] else "", "target": j["family"]}
+            sig = {"dir": "history", "what": d_[0], "interleaved": bool(j["sequence"] and j["sequence"][-1].startswith("between:"))}
             res["viol"].append({"sig": sig, "count": 1, "instance": {"program": j["program"], "solver": j["solver"], "sequence": j["sequence"], "what": d_[0],
                                                                        "detail": d_[1], "expect": "history"}})
     except Exception as e:
@@ -424,6 +434,7 @@ def main(tier):
     # histories
     names = [a for a, _f in activities()]
     seqs = [[]] + [[a] for a in names] + ([[a, b] for a in names for b in names] if tier == "thorough" else [[a, b] for a in names for b in ("tiny-max_time", "debug", "random", "optimize")])
+    seqs += [["between:" + a] for a in ("build-only", "solve", "same-names", "tiny-max_time")] + [["solve", "between:solve"], ["debug", "between:build-only"]]
     hj = []
     for (lab, p, skw) in history_targets(tier):
         try:
